@@ -161,7 +161,16 @@ func DrawJPEG(l *core.Lane, o JPEGOpts) *JPEG {
 			case 7: // COM
 				put(Segment{Marker: 0xfe, Kind: "com", Payload: noisyPayload(l, 200)})
 			case 8: // DRI (length is always 4)
-				put(Segment{Marker: 0xdd, Kind: "dri", Payload: []byte{byte(l.Intn(256)), byte(l.Intn(256))}})
+				// restart intervals with 0xFF bytes matter: a scanner that leaves them in the stream
+				// takes them for a marker
+				d0, d1 := l.Intn(256), l.Intn(256)
+				if d0%3 == 1 {
+					d0 = 0xff
+				}
+				if d1%3 == 2 {
+					d1 = 0xff
+				}
+				put(Segment{Marker: 0xdd, Kind: "dri", Payload: []byte{byte(d0), byte(d1)}})
 			case 9: // SOF0/1/2
 				m := byte(0xc0 + l.Intn(3))
 				p := []byte{8, byte(l.Intn(256)), byte(l.Intn(256)), byte(l.Intn(256)), byte(l.Intn(256)), 3, 1, 0x22, 0, 2, 0x11, 1, 3, 0x11, 1}
@@ -210,6 +219,7 @@ func DrawJPEG(l *core.Lane, o JPEGOpts) *JPEG {
 type PNG struct {
 	Bytes   []byte
 	ExifOff int // absolute offset of the eXIf chunk data (-1 none)
+	Map     []FieldSpan
 }
 
 func pngChunk(out []byte, typ string, data []byte) []byte {
@@ -261,6 +271,12 @@ func DrawPNG(l *core.Lane, exif []byte, surround bool) *PNG {
 	anc()
 	out = pngChunk(out, "IEND", nil)
 	p.Bytes = out
+	// layout map: every chunk's length field and end
+	for i := 8; i+12 <= len(out); {
+		n := int(binary.BigEndian.Uint32(out[i:]))
+		p.Map = append(p.Map, FieldSpan{"png.chunk.len", i, 4}, FieldSpan{"end:chunk", i + 12 + n, 0})
+		i += 12 + n
+	}
 	return p
 }
 
@@ -339,6 +355,7 @@ type CR3Opts struct {
 	Preview  []byte
 	Surround bool // random extra boxes inside moov / the Canon uuid / after the standard ones
 	Use64    bool // allow 64-bit box headers
+	Brands   int  // further compatible brands in ftyp (cameras write two)
 	TopExtra bool // unknown/free boxes between any two top-level boxes (also right after ftyp)
 	Tail     int  // 0: mdat last (as cameras write it); 1: no mdat (the last metadata box ends the stream); 2: mdat before the xpacket/preview uuid boxes
 }
@@ -367,6 +384,7 @@ func DrawCR3(l *core.Lane, o CR3Opts) *CR3 {
 		ctbo = append(ctbo, make([]byte, 4)...)
 		ctbo = append(ctbo, be32(uint32(l.Intn(1<<20)))...)
 	}
+	ctboRel := len(inner) + 8
 	inner = append(inner, Box("CTBO", ctbo)...)
 	type cmtPos struct{ idx, rel, hdr int }
 	var cmtRel []cmtPos
@@ -407,7 +425,11 @@ func DrawCR3(l *core.Lane, o CR3Opts) *CR3 {
 			moov = append(moov, Box("trak", Box("tkhd", make([]byte, 84)), Box("mdia", ScreenTIFF(l.Sub().Bytes(l.Intn(300)))))...)
 		}
 	}
-	ftyp := Box("ftyp", []byte("crx "), be32(1), []byte("crx isom"))
+	compat := []byte("crx isom")
+	for i := 0; i < o.Brands; i++ {
+		compat = append(compat, []string{"mif1", "miaf", "heic", "avif", "MiHB", "iso8", "mp41"}[i%7]...)
+	}
+	ftyp := Box("ftyp", []byte("crx "), be32(1), compat)
 	out := append([]byte(nil), ftyp...)
 	c.Top = append(c.Top, Span{"ftyp", 0, len(out)})
 	topExtra := func() {
@@ -434,6 +456,11 @@ func DrawCR3(l *core.Lane, o CR3Opts) *CR3 {
 	topExtra()
 	c.Map = append(c.Map, FieldSpan{"moov.size", moovStart, 4}, FieldSpan{"canon.size", moovStart + 8 + preMoov, 4})
 	canonPayload := moovStart + 8 + preMoov + 8 + 16
+	c.Map = append(c.Map, FieldSpan{"ctbo.size", canonPayload + ctboRel - 8, 4}, FieldSpan{"ctbo.count", canonPayload + ctboRel, 4})
+	for i := 0; i < 4; i++ {
+		rec := canonPayload + ctboRel + 4 + 20*i
+		c.Map = append(c.Map, FieldSpan{"ctbo.idx", rec, 4}, FieldSpan{"ctbo.off", rec + 4, 8}, FieldSpan{"ctbo.len", rec + 12, 8})
+	}
 	for _, cp := range cmtRel {
 		c.CMTOff[cp.idx] = canonPayload + cp.rel
 		c.Map = append(c.Map, FieldSpan{"cmt.size", canonPayload + cp.rel - 8, 4})
@@ -511,6 +538,16 @@ func infe(id uint16, typ string, extra []byte) []byte {
 // DrawHEIF draws a HEIF-branded file whose Exif item holds the TIFF block. brand selects the
 // ftyp variant (0 heic, 1 heix, 2 mif1+heic).
 func DrawHEIF(l *core.Lane, tiff []byte, surround bool) *HEIF {
+	return DrawHEIFOpts(l, tiff, surround, HEIFOpts{})
+}
+
+// HEIFOpts tunes DrawHEIFOpts.
+type HEIFOpts struct {
+	ExtraIloc int // further (redundant) iloc boxes in meta
+	Brands    int // further compatible brands in ftyp
+}
+
+func DrawHEIFOpts(l *core.Lane, tiff []byte, surround bool, ho HEIFOpts) *HEIF {
 	h := &HEIF{}
 	var ftyp []byte
 	switch l.Intn(3) {
@@ -520,6 +557,14 @@ func DrawHEIF(l *core.Lane, tiff []byte, surround bool) *HEIF {
 		ftyp = Box("ftyp", []byte("heix"), be32(0), []byte("mif1heix"))
 	default:
 		ftyp = Box("ftyp", []byte("mif1"), be32(0), []byte("mif1heic"))
+	}
+	if ho.Brands > 0 {
+		extra := []byte{}
+		for i := 0; i < ho.Brands; i++ {
+			extra = append(extra, []string{"miaf", "MiHB", "iso8", "mp41", "hevc", "msf1", "avif"}[i%7]...)
+		}
+		ftyp = append(ftyp, extra...)
+		binary.BigEndian.PutUint32(ftyp, uint32(len(ftyp)))
 	}
 	hdlr := fullBox("hdlr", 0, 0, be32(0), []byte("pict"), make([]byte, 12), []byte{0})
 	pitm := fullBox("pitm", 0, 0, be16(1))
@@ -548,6 +593,9 @@ func DrawHEIF(l *core.Lane, tiff []byte, surround bool) *HEIF {
 	var extra []byte
 	if surround && l.Bool() {
 		extra = randBox(l)
+	}
+	for i := 0; i < ho.ExtraIloc; i++ {
+		extra = append(extra, mkIloc(0, 0, 0, 0)...)
 	}
 	metaLen := len(fullBox("meta", 0, 0, hdlr, pitm, mkIloc(0, 0, 0, 0), iinf, iprp, extra))
 	var pre []byte
@@ -580,6 +628,19 @@ func DrawHEIF(l *core.Lane, tiff []byte, surround bool) *HEIF {
 	}
 	for _, t := range h.Top {
 		h.Map = append(h.Map, FieldSpan{"box.size:" + t.Type, t.Start, 4}, FieldSpan{"end:" + t.Type, t.End, 0})
+	}
+	// size/count fields inside meta: located by their four-ccs in the serialised box
+	for i := len(ftyp); i+16 < len(ftyp)+len(meta); i++ {
+		switch string(out[i+4 : i+8]) {
+		case "iloc":
+			h.Map = append(h.Map, FieldSpan{"iloc.size", i, 4}, FieldSpan{"iloc.widths", i + 12, 2}, FieldSpan{"iloc.count", i + 14, 2})
+		case "iinf":
+			h.Map = append(h.Map, FieldSpan{"iinf.size", i, 4}, FieldSpan{"iinf.count", i + 12, 2})
+		case "infe":
+			h.Map = append(h.Map, FieldSpan{"infe.size", i, 4})
+		case "ipma", "ipco", "iprp", "pitm", "hdlr", "ispe":
+			h.Map = append(h.Map, FieldSpan{string(out[i+4:i+8]) + ".size", i, 4})
+		}
 	}
 	h.Map = append(h.Map, FieldSpan{"end:exifitem", exifOff + len(item), 0})
 	h.Bytes = out
